@@ -342,6 +342,11 @@ def c05(chk):
              keep=re_, sample=4000 if quick else 60000)
     # (b) several instances, several processes (Reopen.tla)
     rule = set_rule()
+    if rule == "max":
+        # ... for ANY number of instances, keys, processes and steps: a TLAPS proof of LastWriteWins for the rule "max"; with the
+        # rule of the code as found ("cas0") the proof must break
+        tlaps_proof(chk, "proofs/ReopenProof.tla",
+                    guard=("gseq' = IF gseq < m THEN m ELSE gseq            \\* SetRule \"max\"", "gseq' = IF gseq = 0 THEN m ELSE gseq"))
     for nm, consts, smp in (
             ("procs_2inst", dict(Inst={"A", "B"}, Keys=K1, MaxSteps=10 if quick else 11, MaxProcs=2 if quick else 3, SetRule=rule), 500 if quick else 6000),
             ("procs_1inst_2keys", dict(Inst={"A"}, Keys=K2, MaxSteps=7 if quick else 9, MaxProcs=3, SetRule=rule), 300 if quick else 4000)):
